@@ -169,7 +169,7 @@ Definition ctx_sqrt (p : Z) (m : mode) (s e : Z) : result approx :=
     let rem := Z.abs signif - root * root in
     let exp := Z.quot (e - shift) 2 in
     let res :=
-      if rem =? 0 then AExact root exp
+      if (rem =? 0) && (low =? 0) then AExact root exp      (* exact only if nothing was cut off below the radicand *)
       else
         let adjust := round_low_part m root Positive
                         (match rem ?= root with Eq => (low * 4 ?= B ^ low_digits) | c => c end) in
